@@ -64,6 +64,8 @@ structure Params where
   feeDao : Int
   feeUpgrade : Int
   txSigLimit : Int := 7   -- auth `TxSigLimit`: the most keys (counted with the outer key) a multisignature key may hold
+  feeMults : List (String × Int) := []   -- auth `FeeMultipliers`: message type -> multiplier of its base fee (first match)
+  feeDefault : Int := 1                  -- ... and the multiplier of every type the list does not name
   deriving Repr
 
 structure State where
@@ -472,12 +474,29 @@ def Msg.basicOK : Msg → Bool
   | .daoBurn _ amt => isInt64 amt && amt != 0
   | .upgrade _ h ver => h != 0 && ver != ""
 
-def Msg.requiredFee (p : Params) : Msg → Int
+/-- `msg.GetFee()`: the base fee of the message type -/
+def Msg.baseFee (p : Params) : Msg → Int
   | .changeParam _ _ _ => p.feeChangeParam
   | .daoTransfer _ _ _ => p.feeDao
   | .daoBurn _ _ => p.feeDao
   | .upgrade _ _ _ => p.feeUpgrade
   | _ => p.feeBase
+
+/-- `msg.Type()` -/
+def Msg.typeName : Msg → String
+  | .stake _ _ => "stake_validator"
+  | .unstake _ => "begin_unstaking_validator"
+  | .unjail _ => "unjail"
+  | .send _ _ _ => "send"
+  | .changeParam _ _ _ => "change_param"
+  | .daoTransfer _ _ _ => "dao_tranfer"
+  | .daoBurn _ _ => "dao_tranfer"
+  | .upgrade _ _ _ => "upgrade"
+
+/-- `FeeMultipliers.GetFee`: the base fee times the multiplier listed for the message type (the first entry that names
+it), or times the default multiplier -/
+def Msg.requiredFee (p : Params) (m : Msg) : Int :=
+  m.baseFee p * ((p.feeMults.lookup m.typeName).getD p.feeDefault)
 
 /-- the text between a leading and a trailing double quote -/
 def unquote (v : String) : Option (List Char) :=
@@ -542,6 +561,36 @@ def parseAcl (v : String) : Option (List (String × Addr)) :=
   (stripPrefix "{\"type\":\"gov/non_map_acl\",\"value\":[".toList v.toList).bind fun r =>
     if r == [']', '}'] then some [] else parseAclEntries r.length r
 
+/-- entries `{"key":"K","multiplier":"N"}` separated by commas, up to the closing `]` -/
+def parseFeeEntries : Nat → List Char → Option (List (String × Int) × List Char)
+  | 0, _ => none
+  | fuel + 1, cs =>
+    (stripPrefix "{\"key\":\"".toList cs).bind fun r1 =>
+    (untilQuote r1).bind fun (k, r2) =>
+    (stripPrefix ",\"multiplier\":\"".toList r2).bind fun r3 =>
+    (untilQuote r3).bind fun (n, r4) =>
+    (digitsToInt n).bind fun m =>
+    match r4 with
+    | '}' :: ']' :: rest => some ([(String.ofList k, m)], rest)
+    | '}' :: ',' :: r5 => (parseFeeEntries fuel r5).map fun (l, rest) => ((String.ofList k, m) :: l, rest)
+    | _ => none
+
+/-- the fee multipliers in the canonical amino JSON of the parameter store:
+`{"fee_multiplier":null,"default":"N"}` or `{"fee_multiplier":[{"key":"K","multiplier":"N"},…],"default":"N"}` -/
+def parseFeeMults (v : String) : Option (List (String × Int) × Int) :=
+  (stripPrefix "{\"fee_multiplier\":".toList v.toList).bind fun r =>
+    let listAndRest : Option (List (String × Int) × List Char) :=
+      match stripPrefix "null".toList r with
+      | some rest => some ([], rest)
+      | none => (stripPrefix "[".toList r).bind fun r1 =>
+          match r1 with
+          | ']' :: rest => some ([], rest)
+          | _ => parseFeeEntries r1.length r1
+    listAndRest.bind fun (l, rest) =>
+      (stripPrefix ",\"default\":\"".toList rest).bind fun r2 =>
+      (untilQuote r2).bind fun (d, r3) =>
+      if r3 != ['}'] then none else (digitsToInt d).map fun n => (l, n)
+
 /-- the upgrade plan in the canonical amino JSON of the parameter store:
 `{"type":"gov/upgrade","value":{"Height":"<digits>","Version":"<text without a double quote>"}}` -/
 def parseUpgrade (v : String) : Option (Int × String) :=
@@ -563,6 +612,8 @@ def applyParam (s : State) (key val : String) : State :=
   | "pos/SignedBlocksWindow" => match parseQuotedInt val with | some n => { s with p := { s.p with window := n } } | none => s
   | "pos/MinSignedPerWindow" => match parseQuotedDec val with | some n => { s with p := { s.p with minSignedRaw := n } } | none => s
   | "auth/MaxMemoCharacters" => match parseQuotedInt val with | some n => { s with p := { s.p with maxMemo := n } } | none => s
+  | "auth/FeeMultipliers" => match parseFeeMults val with
+    | some (l, d) => { s with p := { s.p with feeMults := l, feeDefault := d } } | none => s
   | "auth/TxSigLimit" => match parseQuotedInt val with | some n => { s with p := { s.p with txSigLimit := n } } | none => s
   | "gov/daoOwner" => match parseQuotedAddr val with | some a => { s with daoOwner := a } | none => s
   | "pos/DowntimeJailDuration" => match parseQuotedInt val with | some n => { s with p := { s.p with jailDur := n } } | none => s
